@@ -107,6 +107,14 @@ Open Scope Q_scope.
 Lemma Qeq_bool_false_neq a b : Qeq_bool a b = false -> ~ a == b.
 Proof. intros H E. apply Qeq_bool_iff in E. congruence. Qed.
 
+Lemma inj_eq0 z : inject_Z z == 0 -> z = 0%Z.
+Proof. unfold Qeq. cbn. lia. Qed.
+Lemma inj_inj a b : inject_Z a == inject_Z b -> a = b.
+Proof. unfold Qeq. cbn. lia. Qed.
+
+Lemma inj_sub a b : inject_Z (a - b) == inject_Z a - inject_Z b.
+Proof. unfold Z.sub. rewrite inject_Z_plus, inject_Z_opp. ring. Qed.
+
 Lemma inj_pos D : (0 < D)%Z -> 0 < inject_Z D.
 Proof. intro H. change 0 with (inject_Z 0). rewrite <- Zlt_Qlt. exact H. Qed.
 
@@ -136,14 +144,21 @@ Qed.
 Lemma inj_div_0 D : inject_Z 0 / inject_Z D == 0.
 Proof. unfold Qdiv. change (inject_Z 0) with 0. ring. Qed.
 
+Lemma inj_div_neg a D : (0 < D)%Z -> inject_Z a / inject_Z D < 0 -> (a < 0)%Z.
+Proof. intros HD H. apply (proj1 (inj_div_lt a 0 D HD)). rewrite inj_div_0. exact H. Qed.
+Lemma inj_div_pos a D : (0 < D)%Z -> 0 < inject_Z a / inject_Z D -> (0 < a)%Z.
+Proof. intros HD H. apply (proj1 (inj_div_lt 0 a D HD)). rewrite inj_div_0. exact H. Qed.
+Lemma inj_div_is0 a D : (0 < D)%Z -> inject_Z a / inject_Z D == 0 -> a = 0%Z.
+Proof. intros HD H. apply (proj1 (inj_div_eq a 0 D HD)). rewrite inj_div_0. exact H. Qed.
+
 Lemma ratio_div a b D : (0 < D)%Z -> ~ (b = 0)%Z ->
   (inject_Z a / inject_Z D) / (inject_Z b / inject_Z D) == ratio a b.
 Proof.
   intros HD Hb. unfold ratio.
   assert (Hd : ~ inject_Z D == 0).
-  { intro E. change 0 with (inject_Z 0) in E. apply inject_Z_injective in E. lia. }
+  { intro E. apply inj_eq0 in E. lia. }
   assert (Hb' : ~ inject_Z b == 0).
-  { intro E. change 0 with (inject_Z 0) in E. apply inject_Z_injective in E. lia. }
+  { intro E. apply inj_eq0 in E. lia. }
   field. split; assumption.
 Qed.
 
@@ -154,18 +169,17 @@ Proof.
   intros HD Hv Hz. unfold axis_scalar, tentQ, tent_scalar.
   pose proof (proj2 (tent_valid_iff t) Hv) as Hvb. rewrite Hvb. cbn [negb].
   destruct Hv as [[H1 H2] H3].
-  destruct (Qlt_le_dec _ _) as [L|_]; [apply (inj_div_lt _ _ D HD) in L; lia|].
-  destruct (Qlt_le_dec _ _) as [L|_]; [apply (inj_div_lt _ _ D HD) in L; lia|].
+  destruct (Qlt_le_dec _ _) as [L|_]; [apply (proj1 (inj_div_lt _ _ D HD)) in L; lia|].
+  destruct (Qlt_le_dec _ _) as [L|_]; [apply (proj1 (inj_div_lt _ _ D HD)) in L; lia|].
   (* start < 0 < end with a non-zero peak: impossible for a valid tent *)
   match goal with |- context [if ?c then 1 else _] =>
-    assert (Hc : c = false); [|rewrite Hc] end.
+    assert (Hc : c = false); [|rewrite Hc; clear Hc] end.
   { destruct (Qlt_le_dec _ 0) as [L1|_]; [|reflexivity].
     destruct (Qlt_le_dec 0 _) as [L2|_]; [|reflexivity].
-    rewrite <- (inj_div_0 D) in L1, L2.
-    apply (inj_div_lt _ _ D HD) in L1. apply (inj_div_lt _ _ D HD) in L2. lia. }
+    apply (inj_div_neg _ D HD) in L1. apply (inj_div_pos _ D HD) in L2. lia. }
   destruct (Qeq_bool (inject_Z (tpeak t) / inject_Z D) 0) eqn:Ep.
   - (* peak = 0: the tent is the zero tent *)
-    apply Qeq_bool_iff in Ep. rewrite <- (inj_div_0 D) in Ep. apply (inj_div_eq _ _ D HD) in Ep.
+    apply Qeq_bool_iff in Ep. apply (inj_div_is0 _ D HD) in Ep.
     destruct (Hz Ep) as (Z1 & Z2 & Z3). rewrite Z1, Z2, Z3.
     destruct (Z.eqb_spec v 0); reflexivity.
   - apply Qeq_bool_false_neq in Ep.
@@ -173,45 +187,45 @@ Proof.
     { intro E. apply Ep. rewrite E. apply inj_div_0. }
     destruct (Z.eqb_spec v (tpeak t)) as [->|Hne].
     + (* at the peak *)
-      destruct (Qlt_le_dec _ _) as [L|_]; [apply (inj_div_lt _ _ D HD) in L; lia|].
-      destruct (Qlt_le_dec _ _) as [L|_]; [apply (inj_div_lt _ _ D HD) in L; lia|].
+      destruct (Qlt_le_dec _ _) as [L|_]; [apply (proj1 (inj_div_lt _ _ D HD)) in L; lia|].
+      destruct (Qlt_le_dec _ _) as [L|_]; [apply (proj1 (inj_div_lt _ _ D HD)) in L; lia|].
       rewrite Qeq_bool_refl. reflexivity.
     + replace ((tmin t =? 0)%Z && (tpeak t =? 0)%Z && (tmax t =? 0)%Z) with false by lia.
       destruct (Qlt_le_dec _ _) as [L|L].
-      { apply (inj_div_lt _ _ D HD) in L. replace ((v <=? tmin t)%Z || (tmax t <=? v)%Z) with true by lia. reflexivity. }
-      apply (inj_div_le _ _ D HD) in L.
+      { apply (proj1 (inj_div_lt _ _ D HD)) in L. replace ((v <=? tmin t)%Z || (tmax t <=? v)%Z) with true by lia. reflexivity. }
+      apply (proj1 (inj_div_le _ _ D HD)) in L.
       destruct (Qlt_le_dec _ _) as [L2|L2].
-      { apply (inj_div_lt _ _ D HD) in L2. replace ((v <=? tmin t)%Z || (tmax t <=? v)%Z) with true by lia. reflexivity. }
-      apply (inj_div_le _ _ D HD) in L2.
+      { apply (proj1 (inj_div_lt _ _ D HD)) in L2. replace ((v <=? tmin t)%Z || (tmax t <=? v)%Z) with true by lia. reflexivity. }
+      apply (proj1 (inj_div_le _ _ D HD)) in L2.
       destruct (Qeq_bool (inject_Z v / inject_Z D) (inject_Z (tpeak t) / inject_Z D)) eqn:Ev.
-      { apply Qeq_bool_iff in Ev. apply (inj_div_eq _ _ D HD) in Ev. contradiction. }
+      { apply Qeq_bool_iff in Ev. apply (proj1 (inj_div_eq _ _ D HD)) in Ev. contradiction. }
       destruct (Z.eq_dec v (tmin t)) as [Em|Nm].
       { (* on the start edge: (v - s)/(p - s) = 0 *)
         replace ((v <=? tmin t)%Z || (tmax t <=? v)%Z) with true by lia.
         destruct (Qlt_le_dec _ _) as [L3|L3].
         - subst v. unfold Qdiv. ring.
-        - apply (inj_div_le _ _ D HD) in L3. lia. }
+        - apply (proj1 (inj_div_le _ _ D HD)) in L3. lia. }
       destruct (Z.eq_dec v (tmax t)) as [Ex|Nx].
       { replace ((v <=? tmin t)%Z || (tmax t <=? v)%Z) with true by lia.
         destruct (Qlt_le_dec _ _) as [L3|L3].
-        - apply (inj_div_lt _ _ D HD) in L3. lia.
+        - apply (proj1 (inj_div_lt _ _ D HD)) in L3. lia.
         - subst v. unfold Qdiv. ring. }
       replace ((v <=? tmin t)%Z || (tmax t <=? v)%Z) with false by lia.
       destruct (Qlt_le_dec _ _) as [L3|L3].
-      * apply (inj_div_lt _ _ D HD) in L3. replace (v <? tpeak t)%Z with true by lia.
+      * apply (proj1 (inj_div_lt _ _ D HD)) in L3. replace (v <? tpeak t)%Z with true by lia.
         rewrite <- (ratio_div (v - tmin t) (tpeak t - tmin t) D HD) by lia.
-        rewrite !inject_Z_minus. unfold Qdiv. field.
-        split.
-        -- intro E. change 0 with (inject_Z 0) in E. apply inject_Z_injective in E. lia.
-        -- intro E. assert (E' : inject_Z (tpeak t) == inject_Z (tmin t)) by lra.
-           apply inject_Z_injective in E'. lia.
-      * apply (inj_div_le _ _ D HD) in L3. replace (v <? tpeak t)%Z with false by lia.
+        rewrite !inj_sub. unfold Qdiv. field.
+        repeat split; intro E;
+          first [ apply inj_eq0 in E; lia
+                | assert (E' : inject_Z (tpeak t) == inject_Z (tmin t)) by lra; apply inj_inj in E'; lia
+                | assert (E' : inject_Z (tpeak t) == inject_Z (tmax t)) by lra; apply inj_inj in E'; lia ].
+      * apply (proj1 (inj_div_le _ _ D HD)) in L3. replace (v <? tpeak t)%Z with false by lia.
         rewrite <- (ratio_div (v - tmax t) (tpeak t - tmax t) D HD) by lia.
-        rewrite !inject_Z_minus. unfold Qdiv. field.
-        split.
-        -- intro E. change 0 with (inject_Z 0) in E. apply inject_Z_injective in E. lia.
-        -- intro E. assert (E' : inject_Z (tpeak t) == inject_Z (tmax t)) by lra.
-           apply inject_Z_injective in E'. lia.
+        rewrite !inj_sub. unfold Qdiv. field.
+        repeat split; intro E;
+          first [ apply inj_eq0 in E; lia
+                | assert (E' : inject_Z (tpeak t) == inject_Z (tmin t)) by lra; apply inj_inj in E'; lia
+                | assert (E' : inject_Z (tpeak t) == inject_Z (tmax t)) by lra; apply inj_inj in E'; lia ].
 Qed.
 
 Lemma tuple_scalar_tents D ts : (0 < D)%Z -> forall l,
